@@ -145,6 +145,25 @@ func (pi *pdataInfo) resolveWrapper(v ssa.Value, depth int) ssa.Value {
 			return pi.origRoot(arg, depth+1)
 		}
 		return nil
+	case *ssa.Extract:
+		// wrapper taken out of a multi-result call (v, ok := m.Get(k))
+		call, ok := x.Tuple.(*ssa.Call)
+		if !ok {
+			return nil
+		}
+		cf := staticCalleeFn(call)
+		if cf == nil || !pi.inScope[cf] {
+			return nil
+		}
+		idx := pi.returnsDerivedFromN(cf, x.Index)
+		if idx >= 0 && idx < len(call.Call.Args) {
+			arg := call.Call.Args[idx]
+			if pi.isWrapperType(arg.Type()) {
+				return pi.resolveWrapper(arg, depth+1)
+			}
+			return pi.origRoot(arg, depth+1)
+		}
+		return nil
 	case *ssa.UnOp:
 		if x.Op == token.MUL {
 			// load of a wrapper from memory (e.g. captured variable): unknown
@@ -159,7 +178,27 @@ func (pi *pdataInfo) resolveWrapper(v ssa.Value, depth int) ssa.Value {
 // returnsDerivedFrom: for a function returning a wrapper (or pointer) whose orig derives from
 // one of its parameters on every return: that parameter's index. -1 fresh/none, -2 unknown.
 func (pi *pdataInfo) returnsDerivedFrom(f *ssa.Function) int {
-	if r, ok := pi.retSum[f]; ok {
+	if f.Signature.Results().Len() != 1 {
+		return -1
+	}
+	return pi.returnsDerivedFromN(f, 0)
+}
+
+type retKey struct {
+	f *ssa.Function
+	i int
+}
+
+var retSumN = map[retKey]int{}
+var retSumNOwner *pdataInfo
+
+// returnsDerivedFromN: the same for result number ri of a multi-result function (e.g. Map.Get).
+func (pi *pdataInfo) returnsDerivedFromN(f *ssa.Function, ri int) int {
+	if retSumNOwner != pi {
+		retSumNOwner = pi
+		retSumN = map[retKey]int{}
+	}
+	if r, ok := retSumN[retKey{f, ri}]; ok {
 		return r
 	}
 	if pi.busy[f] {
@@ -168,13 +207,17 @@ func (pi *pdataInfo) returnsDerivedFrom(f *ssa.Function) int {
 	pi.busy[f] = true
 	defer delete(pi.busy, f)
 	res := -1
-	if f.Signature.Results().Len() != 1 || len(f.Blocks) == 0 {
-		pi.retSum[f] = -1
+	if ri >= f.Signature.Results().Len() || len(f.Blocks) == 0 {
+		retSumN[retKey{f, ri}] = -1
 		return -1
 	}
 	first := true
 	for _, r := range returnsOf(f) {
-		v := resultsOf(r)[0]
+		rs := resultsOf(r)
+		if ri >= len(rs) {
+			continue
+		}
+		v := rs[ri]
 		var root ssa.Value
 		sv := strip(v)
 		// struct literal of a wrapper: built in an Alloc then loaded, or as a value via field stores
@@ -194,6 +237,11 @@ func (pi *pdataInfo) returnsDerivedFrom(f *ssa.Function) int {
 				}
 			}
 		}
+		if idx == -1 && root == nil && ri > 0 || idx == -1 && root == nil && f.Signature.Results().Len() > 1 {
+			// a fresh / zero wrapper on one return of a multi-result function (`return Value{}, false`) is neutral:
+			// writes through the result can still reach the parameter's payload on the other returns
+			continue
+		}
 		if first {
 			res = idx
 			first = false
@@ -201,7 +249,7 @@ func (pi *pdataInfo) returnsDerivedFrom(f *ssa.Function) int {
 			res = -2
 		}
 	}
-	pi.retSum[f] = res
+	retSumN[retKey{f, ri}] = res
 	return res
 }
 
